@@ -469,11 +469,12 @@ bool encode_array::prepare(size_t len)
 	if (_enc) {
 		return false;
 	}
+	/* extend and restore size, keeps existing data */
 	size_t old = _d.length();
-	if (!_d.set(old + len)) {
+	if (!mpt_array_slice(&_d, old, len)) {
 		return false;
 	}
-	_d.set(old);
+	const_cast<array::content *>(_d.data())->set_length(old);
 	return true;
 }
 span<const uint8_t> encode_array::data() const
